@@ -6,6 +6,7 @@ import (
 	"math/rand"
 	"strconv"
 	"strings"
+	"runtime"
 	"sync"
 	"sync/atomic"
 	"time"
@@ -486,6 +487,9 @@ func hubOracle(r *rand.Rand, n int, tier string, infile string) (cases int, fail
 			if f := queueOracleCase(r); f != "" && len(fails) < 20 {
 				fails = append(fails, f)
 			}
+			if f := queueRaceCase(r); f != "" && len(fails) < 20 {
+				fails = append(fails, f)
+			}
 			continue
 		}
 		kind := hx.Pick(r, "tell", "ask")
@@ -612,6 +616,70 @@ func hubOracle(r *rand.Rand, n int, tier string, infile string) (cases int, fail
 		mu.Unlock()
 	}
 	return cases, fails
+}
+
+// queueRaceCase: C13 on swarmutil.Queue when receivers outnumber the messages. One message is in the queue, several
+// receivers sharing one context enter Receive at the same moment, the context ends once the callback has run: exactly
+// one receiver gets the message and every other one returns promptly with the context's error (or, in the Close
+// variant, with the closed error) instead of staying parked.
+func queueRaceCase(r *rand.Rand) string {
+	for round := 0; round < 30; round++ {
+		q := swarmutil.NewQueue[memswarm.Addr](1+r.Intn(2), 16)
+		nmsg := 1
+		for i := 0; i < nmsg; i++ {
+			q.Deliver(p2p.Message[memswarm.Addr]{Payload: []byte{byte(i)}})
+		}
+		nrecv := 2 + r.Intn(7)
+		ctx, cancel := context.WithCancel(context.Background())
+		var start atomic.Bool
+		var cbs atomic.Int32
+		res := make(chan error, nrecv)
+		for i := 0; i < nrecv; i++ {
+			go func() {
+				for !start.Load() {
+				}
+				res <- q.Receive(ctx, func(m p2p.Message[memswarm.Addr]) { cbs.Add(1) })
+			}()
+		}
+		start.Store(true)
+		deadline := time.Now().Add(2 * time.Second)
+		for cbs.Load() < int32(nmsg) && time.Now().Before(deadline) {
+			runtime.Gosched()
+		}
+		byClose := r.Intn(2) == 0
+		if byClose {
+			go q.Close()
+		} else {
+			cancel()
+		}
+		got, nils := 0, 0
+		timeout := time.After(2 * time.Second)
+	wait:
+		for got < nrecv {
+			select {
+			case err := <-res:
+				got++
+				if err == nil {
+					nils++
+				}
+			case <-timeout:
+				break wait
+			}
+		}
+		cancel()
+		q.Close()
+		if got < nrecv {
+			how := "cancellation of their context"
+			if byClose {
+				how = "Close"
+			}
+			return fmt.Sprintf("C13 queue: %d message(s) queued, %d receivers entered Receive together: only %d returned within 2s of %s (%d took a message)", nmsg, nrecv, got, how, nils)
+		}
+		if int(cbs.Load()) != nmsg || nils != nmsg {
+			return fmt.Sprintf("C13 queue: %d message(s) queued, %d receivers: %d callbacks ran and %d receivers returned nil", nmsg, nrecv, cbs.Load(), nils)
+		}
+	}
+	return ""
 }
 
 // queueOracleCase: C12 on swarmutil.Queue under genuine concurrency. Producers and receivers race with a Close;
